@@ -349,3 +349,102 @@ Example C05_addr_example_timeouts :
   model_obs [OAsk 1 (TAfter 800 true) 300; OAdv 100; OShutdown; OAdv 1000] = [(0, [0]); (100, [0]); (800, []); (1800, [])] /\
   model_fin [OAsk 1 (TAfter 800 true) 300; OAdv 100; OShutdown; OAdv 1000] = [(0, ByTimeout, 300)].
 Proof. vm_compute. repeat split. Qed.
+
+(* ===================================================================================================================
+   A spawn that OVERLAPS the termination (or restart) of its parent (MV.C05.SpawnModel / SpawnProofs). The kernel model
+   above executes a spawn as one step; in the code ActorOf is a sequence of statements that does not run on the parent's
+   message loop when it is called through ActorSystem.ActorOf (the caller's goroutine, on the guard: the normal way to
+   create top-level actors) or from a goroutine an actor started. The machine: any number of spawner goroutines, each
+   executing the statements of ActorOf that matter — Register, the entry into the parent's children table, the delivery of
+   OnLaunch, the load of the PARENT's status, the conditional terminate request — in the ORDER the machine is given, against
+   the parent's own loop, which may at any moment take up a terminate or restart request (status CAS ; sweep: a request to
+   every child CURRENTLY in the table ; notices of stopped children ; len(children) == 0 ; final status store), a terminate
+   request overtaking a restart included. [order_ok]: registered once, then entered once; the value that guards the
+   terminate request is read AFTER the table entry; decided once, sent whenever that value is "not alive". Tie T3
+   (harness/translate/c05spawn) extracts the order from the tree under test on every run; SpawnInstance.v (generated)
+   proves [order_ok] of it. *)
+From MV Require Import Lib.Sched C05.SpawnModel C05.SpawnProofs.
+
+(* the order of the source, and of a harmless rewrite, are accepted; the hoisted read is not *)
+Theorem C05_late_spawn_orders :
+  order_ok source_order = true /\ order_ok cached_after_entry_order = true /\ order_ok hoisted_order = false.
+Proof. exact (conj source_order_ok (conj cached_after_entry_order_ok hoisted_order_not_ok)). Qed.
+Print Assumptions C05_late_spawn_orders.
+
+(* For every accepted order, any number of concurrent spawns and every interleaving: a child that is in the table of a parent
+   that is restarting, terminating or terminated (and past its sweep), and whose spawner has made its decision — in particular:
+   whose ActorOf has returned — HAS BEEN TOLD to stop, by the parent's sweep or by the spawner's late check. *)
+Theorem C05_late_spawn_every_child_told : forall o st k, order_ok o = true -> Sched.reach (spawn_init o) st ->
+  In k (kids (fst st)) -> k_dec k = true -> k_in k = true -> status (fst st) <> SAlive -> pc (fst st) <> PSweep -> k_told k = true.
+Proof. exact spawn_child_told. Qed.
+Print Assumptions C05_late_spawn_every_child_told.
+
+Theorem C05_late_spawn_returned_is_decided : forall o st k, order_ok o = true -> Sched.reach (spawn_init o) st ->
+  In k (kids (fst st)) -> returned k -> k_dec k = true.
+Proof. exact spawn_returned_decided. Qed.
+Print Assumptions C05_late_spawn_returned_is_decided.
+
+(* the table is sound: an entry whose child is no longer registered belongs to a child that was told to stop; a registered
+   child whose spawner has decided is in the table (its entry is deleted only after it has stopped) *)
+Theorem C05_late_spawn_table_sound : forall o st k, order_ok o = true -> Sched.reach (spawn_init o) st -> In k (kids (fst st)) ->
+  (k_in k = true -> k_reg k = false -> k_told k = true) /\ (k_dec k = true -> k_reg k = true -> k_in k = true).
+Proof. exact spawn_table_sound. Qed.
+Print Assumptions C05_late_spawn_table_sound.
+
+(* Hence nobody is left behind and nobody waits for ever: in every reachable state in which nothing can move any more (further
+   spawns and, for a living parent, a request may still arrive) every ActorOf has returned and the parent is alive, or it
+   has TERMINATED and no child is registered. A parent that took up a request is never stuck terminating or restarting. *)
+Theorem C05_late_spawn_nobody_left_behind : forall o st, order_ok o = true -> Sched.reach (spawn_init o) st -> final st ->
+  (forall k, In k (kids (fst st)) -> returned k) /\
+  ((status (fst st) = SAlive /\ pc (fst st) = PIdle) \/
+   (status (fst st) = STerminated /\ pc (fst st) = PDead /\ forall k, In k (kids (fst st)) -> k_reg k = false)).
+Proof. exact spawn_nobody_left_behind. Qed.
+Print Assumptions C05_late_spawn_nobody_left_behind.
+
+(* REFUTED for the status read hoisted to the top of ActorOf (seeded change "adopting := ctx.status.Load() == alive"):
+   (a) spawner reads "alive"; the parent takes up a terminate request and sweeps an empty table; the spawner registers the
+   child, enters it, launches it and — holding "alive" — sends nothing. From then on, whatever anybody does, the parent is
+   terminating and the child is in its table, running, never told: Shutdown hangs. *)
+Theorem C05_late_spawn_hoisted_read_parent_waits_for_ever_refuted :
+  exists st, Sched.reach (spawn_init hoisted_order) st /\ snd st = [Some TEnv; Some TParent; None] /\
+    forall st', Sched.reach st st' ->
+      status (fst st') = STerminating /\
+      exists kd, nth_error (kids (fst st')) 0 = Some kd /\ returned kd /\ k_in kd = true /\ k_reg kd = true /\ k_told kd = false.
+Proof. exact hoisted_read_parent_waits_for_ever. Qed.
+Print Assumptions C05_late_spawn_hoisted_read_parent_waits_for_ever_refuted.
+
+(* (b) the parent finishes inside the window (empty table): it has terminated — Shutdown has returned — and the child is
+   registered and running for ever *)
+Theorem C05_late_spawn_hoisted_read_child_outlives_parent_refuted :
+  exists st, Sched.reach (spawn_init hoisted_order) st /\ snd st = [Some TEnv; None; None] /\
+    forall st', Sched.reach st st' ->
+      status (fst st') = STerminated /\
+      exists kd, nth_error (kids (fst st')) 0 = Some kd /\ returned kd /\ k_in kd = true /\ k_reg kd = true /\ k_told kd = false.
+Proof. exact hoisted_read_child_outlives_parent. Qed.
+Print Assumptions C05_late_spawn_hoisted_read_child_outlives_parent_refuted.
+
+(* (c) the same window against a restart: the parent stays restarting (suspended) with the untold child in its table; the
+   only step that can still happen there besides further spawns is a terminate request to the parent itself *)
+Theorem C05_late_spawn_hoisted_read_restart_never_completes_refuted :
+  exists st, Sched.reach (spawn_init hoisted_order) st /\ snd st = [Some TEnv; Some TParent; None] /\
+    status (fst st) = SRestarting /\ pc (fst st) = PWait /\
+    (exists kd, kids (fst st) = [kd] /\ returned kd /\ k_in kd = true /\ k_reg kd = true /\ k_told kd = false) /\
+    forall j c st' e, Sched.gstep st j c = Some (st', e) -> c = CNew \/ c = CTerm.
+Proof. exact hoisted_read_restart_never_completes. Qed.
+Print Assumptions C05_late_spawn_hoisted_read_restart_never_completes_refuted.
+
+(* non-vacuity: the interleavings of (a) and (b) on the order of the source end with the parent terminated, the child told,
+   stopped and unregistered *)
+Example C05_late_spawn_source_same_windows :
+  (exists st es, Sched.run (spawn_init source_order)
+    ([(0, CNew); (1, CTerm); (1, CNone); (2, CNone); (2, CNone); (2, CNone); (2, CNone); (2, CNone); (2, CNone);
+      (0, CStop 0); (1, CNotice 0); (1, CCheck); (1, CNone)])%nat = Some (st, es) /\
+    status (fst st) = STerminated /\ snd st = [Some TEnv; None; None] /\
+    (exists kd, kids (fst st) = [kd] /\ returned kd /\ k_told kd = true /\ k_reg kd = false /\ k_in kd = false /\ k_launched kd = true) /\
+    final st) /\
+  (exists st es, Sched.run (spawn_init source_order)
+    ([(0, CNew); (1, CTerm); (1, CNone); (1, CCheck); (1, CNone);
+      (2, CNone); (2, CNone); (2, CNone); (2, CNone); (2, CNone); (2, CNone); (0, CStop 0)])%nat = Some (st, es) /\
+    status (fst st) = STerminated /\ snd st = [Some TEnv; None; None] /\
+    exists kd, kids (fst st) = [kd] /\ returned kd /\ k_told kd = true /\ k_reg kd = false).
+Proof. exact (conj source_order_same_window_waiting source_order_same_window_terminated). Qed.
